@@ -940,6 +940,7 @@ pub fn special_values(r: &mut Rng, dims: &[usize]) -> Vec<f64> {
 pub fn gen_leaves(r: &mut Rng, cfg: &GenCfg) -> GenState {
     let base_rank = r.range(1, cfg.max_rank);
     let base: Vec<usize> = (0..base_rank).map(|_| r.range(1, cfg.max_dim)).collect();
+    let base: Vec<usize> = FORCED_BASE.with(|b| b.borrow().clone()).unwrap_or(base);
     let nleaf = r.range(1, cfg.max_leaves);
     let mut st = GenState { p: Program::default(), refv: vec![], shadow: vec![], flags: vec![] };
     let mut any_tracked = false;
@@ -974,6 +975,19 @@ pub fn gen_leaves(r: &mut Rng, cfg: &GenCfg) -> GenState {
         st.flags.push(tracked);
     }
     st
+}
+
+/// as `gen_program`, every leaf of the given shape
+pub fn gen_program_with_base(r: &mut Rng, cfg: &GenCfg, base: &[usize]) -> Program {
+    let mut c2 = cfg.clone();
+    c2.uniform_shape = true;
+    FORCED_BASE.with(|b| *b.borrow_mut() = Some(base.to_vec()));
+    let p = gen_program(r, &c2);
+    FORCED_BASE.with(|b| *b.borrow_mut() = None);
+    p
+}
+thread_local! {
+    static FORCED_BASE: RefCell<Option<Vec<usize>>> = RefCell::new(None);
 }
 
 pub fn gen_program(r: &mut Rng, cfg: &GenCfg) -> Program {
